@@ -26,14 +26,14 @@ def convertLine (kind : String) (x : Text) : String :=
     if !accepts .uri x then "invalid" else
     kv [("as_uri_ref", "ok"), ("as_iri", "ok"), ("as_iri_ref", "ok"), ("asref_uri_ref", "ok"),
         ("borrow_iri", "ok"), ("into_uri_ref", "ok"), ("into_iri", "ok"), ("into_iri_ref", "ok"),
-        ("from_buf", "ok")]
+        ("from_buf", "ok"), ("iri_accepts", "ok"), ("iri_ref_accepts", "ok")]
   | "uriref" =>
     if !accepts .uriRef x then "invalid" else
     let s := (Ref.scheme_opt x).isSome
     kv [("as_uri", optTok s), ("as_iri", optTok s), ("as_iri_ref", "ok"), ("try_from_uri", resTok s),
         ("try_from_iri", resTok s), ("from_iri_ref", "ok"), ("try_into_uri", resTok s),
         ("try_into_iri", resTok s), ("into_iri_ref", "ok"), ("tryfrom_buf_uri", resTok s),
-        ("tryfrom_buf_iri", resTok s), ("from_buf_iri_ref", "ok")]
+        ("tryfrom_buf_iri", resTok s), ("from_buf_iri_ref", "ok"), ("iri_ref_accepts", "ok")]
   | "iri" =>
     if !accepts .iri x then "invalid" else
     let u := accepts .uri x
